@@ -100,3 +100,21 @@ Proof. destruct (wrap_congr x) as [k Hk]. rewrite Hk. apply sin_period_Z. Qed.
 Lemma evalR_wrap env a :
   evalR env (Sub (Mod (Add a Pi) (Mul (Cst 2) Pi)) Pi) = wrap (evalR env a).
 Proof. reflexivity. Qed.
+
+(* periodicity through differences and sums of wrapped angles *)
+Lemma cos_sub_wrap_r a b : cos (a - wrap b) = cos (a - b).
+Proof. rewrite <- (cos_wrap (a - wrap b)), wrap_absorb_r. apply cos_wrap. Qed.
+Lemma sin_sub_wrap_r a b : sin (a - wrap b) = sin (a - b).
+Proof. rewrite <- (sin_wrap (a - wrap b)), wrap_absorb_r. apply sin_wrap. Qed.
+Lemma cos_sub_wrap_l a b : cos (wrap a - b) = cos (a - b).
+Proof. rewrite <- (cos_wrap (wrap a - b)), wrap_absorb_l. apply cos_wrap. Qed.
+Lemma sin_sub_wrap_l a b : sin (wrap a - b) = sin (a - b).
+Proof. rewrite <- (sin_wrap (wrap a - b)), wrap_absorb_l. apply sin_wrap. Qed.
+Lemma cos_add_wrap_l a b : cos (wrap a + b) = cos (a + b).
+Proof. rewrite <- (cos_wrap (wrap a + b)), wrap_absorb_plus_l. apply cos_wrap. Qed.
+Lemma sin_add_wrap_l a b : sin (wrap a + b) = sin (a + b).
+Proof. rewrite <- (sin_wrap (wrap a + b)), wrap_absorb_plus_l. apply sin_wrap. Qed.
+Lemma cos_neg_wrap a : cos (- wrap a) = cos (- a).
+Proof. rewrite <- (cos_wrap (- wrap a)), wrap_opp_wrap. apply cos_wrap. Qed.
+Lemma sin_neg_wrap a : sin (- wrap a) = sin (- a).
+Proof. rewrite <- (sin_wrap (- wrap a)), wrap_opp_wrap. apply sin_wrap. Qed.
